@@ -96,12 +96,14 @@ Definition to_writers : list string :=
   ["j5schema.SchemaCache.schemaLocked"; "j5schema.Package.messageProperties";
    "j5schema.buildEnumFieldSchema"; "j5schema.buildMessageFieldSchema"].
 
-Definition lk_writes_to_fresh (ws : list write) : bool :=
-  forallb (fun w =>
-    if String.eqb (w_target w) "j5schema.RefSchema.To"
-    then in_strs (w_fn w) to_writers &&
-         (fresh_class (snd w) || String.eqb (snd w) "other:result of newRefPlaceholder")
-    else fresh_class (snd w)) ws.
+(* one entry (locked function, field, origin of the object written to) of lk_field_writes *)
+Definition lk_entry_ok (w : write) : bool :=
+  if String.eqb (w_target w) "j5schema.RefSchema.To"
+  then in_strs (w_fn w) to_writers &&
+       (fresh_class (snd w) || String.eqb (snd w) "other:result of newRefPlaceholder")
+  else fresh_class (snd w).
+
+Definition lk_writes_to_fresh (ws : list write) : bool := forallb lk_entry_ok ws.
 
 (* the To writers are the functions of the regenerated token tables *)
 Definition last_component (s : string) : string :=
@@ -117,6 +119,56 @@ Definition last_component (s : string) : string :=
 Definition to_writers_in_tables : bool :=
   forallb (fun n => match find_fn (List.app ConcGen.cache_methods ConcGen.placeholder_functions) (last_component n) with
                     | Some _ => true | None => false end) to_writers.
+
+(* (4'') the side condition of the projection of ConcSites.v: the agreement lemmas compare the
+   access sequences of the token tables after dropping the READS of RefSchema.To.  That is sound
+   only for a function that never runs without sc.mu.  Demanded here, over the regenerated census:
+   a function of the tables with such a read is none of the functions a codec call can run without
+   entering SchemaCache.Schema (a method of the cache by its full name; a function of the builder
+   by its last name component, whatever its receiver — the stricter reading); an exported method of
+   the cache with such a read is one critical section on its RAW tokens; and To has no writer
+   among the lock-free functions *)
+Definition cache_fn_name (n : string) : string := "j5schema.SchemaCache." ++ n.
+
+Definition lf_has_builder_fn (lf : list string) (n : string) : bool :=
+  existsb (fun q => String.prefix "j5schema." q && String.eqb (last_component q) n) lf.
+
+Definition projected_reads_ok (lf : list string) (ws : list write) : bool :=
+  forallb (fun f => match f with (n, ex, toks) =>
+     negb (has_projected_read toks) ||
+     (negb (in_strs (cache_fn_name n) lf) && (negb ex || entry_locked toks)) end) ConcGen.cache_methods &&
+  forallb (fun f => match f with (n, _, toks) =>
+     negb (has_projected_read toks) || negb (lf_has_builder_fn lf n) end) ConcGen.placeholder_functions &&
+  forallb (fun w => negb (String.eqb (w_target w) "field:j5schema.RefSchema.To") || negb (in_strs (w_fn w) lf)) ws.
+
+(* (4c) THE CODEC WALK UNDER CONCURRENCY, as an obligation over the census (conc3).
+   "The walk" = everything a codec call runs outside SchemaCache.Schema (lockfree_fns): the
+   encoder / decoder / query decoder of internal/codec and the reflection layer of lib/j5reflect
+   over the schema object it was handed.  What it READS of shared objects (lf_read_fields) must be
+   frozen while any walk can read it.  Demanded, for EVERY write in the census (any function of
+   the analysed packages, any base expression) to a field some lock-free function reads:
+     - the writer is not a lock-free function (so no walk writes what a walk reads), and
+     - if the writer is a locked function, the write is classified in lk_field_writes — the
+       generator may not drop one — and (lk_writes_to_fresh) the object written is one the
+       function created, got from a function that only returns objects it created, or took out of
+       a container it made and filled: an object of the critical section in progress, which no
+       caller has been handed yet; RefSchema.To apart, written by the four functions of the token
+       tables on the placeholder they registered (the model's write_once / linked_for_good).
+   Writers that are neither (constructors and options such as codec.WithResolver, the builders of
+   private SchemaSets) do not run on the path of a codec call.
+   [walk_ok] adds what else the result of a walk could depend on: package-level variables (never
+   assigned after initialisation), the maps the cache keeps mutating (never read by a walk),
+   function values stored in shared objects (never called), goroutines (none started), per-call
+   types reachable from a long-lived object (none), packages outside the analysed set (the
+   allow-list of ext_pkg_ok: TRUSTED to be free of shared mutable state on these entry points). *)
+Definition lk_classified (lkw : list write) (fn f : string) : bool :=
+  existsb (fun e => String.eqb (w_fn e) fn && String.eqb (w_target e) f) lkw.
+
+Definition walk_reads_frozen (lf lk reads : list string) (ws lkw : list write) : bool :=
+  forallb (fun w =>
+    negb (is_field_target (w_target w) && in_strs (strip_field (w_target w)) reads) ||
+    (negb (in_strs (w_fn w) lf) &&
+     (negb (in_strs (w_fn w) lk) || lk_classified lkw (w_fn w) (strip_field (w_target w))))) ws.
 
 (* (5) the long-lived objects hold nothing mutable but the chain to the cache *)
 Definition holder_fields : list string :=
@@ -194,6 +246,9 @@ Definition census_ok : bool :=
   published_ok ConcStateGen.lk_written_lf_read &&
   lk_writes_to_fresh ConcStateGen.lk_field_writes &&
   to_writers_in_tables &&
+  walk_reads_frozen ConcStateGen.lockfree_fns ConcStateGen.locked_fns ConcStateGen.lf_read_fields
+                    ConcStateGen.state_writes ConcStateGen.lk_field_writes &&
+  projected_reads_ok ConcStateGen.lockfree_fns ConcStateGen.state_writes &&
   holders_hold_only_the_cache ConcStateGen.shared_fields &&
   forallb shared_type_ok ConcStateGen.shared_types &&
   boundary_ok ConcStateGen.lockfree_roots ConcStateGen.lockfree_fns ConcStateGen.locked_fns ConcStateGen.schema_callers &&
@@ -202,6 +257,26 @@ Definition census_ok : bool :=
   forallb var_ok ConcStateGen.state_vars &&
   (* the packages the task names are among the analysed ones *)
   forallb (fun p => in_strs p ConcStateGen.state_pkgs) ["lib/j5schema"; "lib/j5reflect"; "internal/codec"; "lib/j5codec"].
+
+(* the obligation about the codec walk, by itself (every conjunct is also part of census_ok) *)
+Definition walk_ok : bool :=
+  lf_writes_nothing ConcStateGen.lockfree_fns ConcStateGen.state_writes &&
+  walk_reads_frozen ConcStateGen.lockfree_fns ConcStateGen.locked_fns ConcStateGen.lf_read_fields
+                    ConcStateGen.state_writes ConcStateGen.lk_field_writes &&
+  lk_writes_to_fresh ConcStateGen.lk_field_writes &&
+  vars_only_initialised ConcStateGen.state_writes &&
+  lf_reads_no_locked_field ConcStateGen.lf_read_fields &&
+  forallb dyncall_ok ConcStateGen.lf_dyncalls &&
+  match ConcStateGen.go_stmts with [] => true | _ => false end &&
+  forallb shared_type_ok ConcStateGen.shared_types &&
+  forallb ext_pkg_ok ConcStateGen.lf_ext_pkgs.
+
+(* a locked function writing a field the walk reads, which the classification does not list *)
+Definition unclassified_write : write :=
+  ("j5schema.Package.buildObjectSchema", "field:j5schema.ObjectProperty.JSONName", "set").
+(* a lock-free function writing a field the walk reads (a lazily filled memo field) *)
+Definition walk_memo_write : write :=
+  ("j5schema.ObjectSchema.ClientProperties", "field:j5schema.ObjectSchema.Properties", "set").
 
 (* ---- the checks do discriminate: the seeded regressions ------------------------------- *)
 (* a memo map in the Reflector filled by NewRoot (mutation 6 of notes/conc.md) *)
